@@ -11,7 +11,10 @@ first = {'C01-a':'first','C02-a':'first','C03-a':'first','C04-a':'after (engine 
  'C07-b':'after','C11-b':'first','C13-b':'first','C15-b':'after (structFieldNames put under contract with reflect.Type observers as pure functions)',
  'C16-b':'after (makeCaller adapter: private argument vector per call)','C17-b':'first','C18-b':'after','C20-b':'first',
  'C01-c':'after (by C09 at first; order-preservation of filterBatchLocked then added to C01)','C03-c':'first','C04-c':'first','C05-c':'first','C07-c':'first','C08-c':'first','C09-c':'first','C13-c':'first',
- 'C14-c':'first (by C01; tasks.responses then added to C14)','C17-c':'first','C18-c':'first','C20-c':'first (by C01/C08; the dispatcher then added to C20)'}
+ 'C14-c':'first (by C01; tasks.responses then added to C14)','C17-c':'first','C18-c':'first','C20-c':'first (by C01/C08; the dispatcher then added to C20)',
+ 'C02-c':'first (by C14; WithData then added to C02)','C06-c':'first','C10-c':'first (by C13; toJSON then added to C10)','C11-c':'first',
+ 'C12-c':'after (decimal reading of Content-Length pinned via strconv.Atoi contract)','C15-c':'after (Check put under contract with reflect.Type observers)',
+ 'C16-c':'first','C19-c':'first (by C18; Bridge.serveInternal then added to C19)'}
 rows=[]
 for d in sorted(glob.glob('/verif/seeded/*/')):
     sid=os.path.basename(d.rstrip('/'))
